@@ -26,6 +26,7 @@ package verifharness
 //   ethsetroot name height root hash | ethgetroot name root height | discard <op>   (op on a dropped cache context)
 //   mkey <PathFunc> pre args… (key the Tendermint client looks up: NewMerklePath + ApplyPrefix + GetKey(1)) | mcodec s
 //   e2e commit|ack pre src dst seq val  (real ICS-23 proof from an IAVL store through VerifyPacketCommitment/Acknowledgement)
+//   ctoggle name rev h t | cupgrade name rev h t   (client keeper ToggleClient / UpgradeClient between the TM and a TSS client state)
 //   grpc commit|ack src dst                      (query server PacketCommitments / PacketAcknowledgements)
 
 import (
@@ -58,6 +59,7 @@ import (
 	bsctypes "github.com/teleport-network/teleport/x/xibc/clients/light-clients/bsc/types"
 	ethtypes "github.com/teleport-network/teleport/x/xibc/clients/light-clients/eth/types"
 	tmtypes "github.com/teleport-network/teleport/x/xibc/clients/light-clients/tendermint/types"
+	tsstypes "github.com/teleport-network/teleport/x/xibc/clients/tss-client/types"
 	clienttypes "github.com/teleport-network/teleport/x/xibc/core/client/types"
 	commitmenttypes "github.com/teleport-network/teleport/x/xibc/core/commitment/types"
 	"github.com/teleport-network/teleport/x/xibc/core/host"
@@ -71,6 +73,8 @@ type c19World struct {
 	ctx   sdk.Context
 	key   sdk.StoreKey
 	csBz  []byte // a marshalled client state
+	cs2   exported.ClientState // a client state of another type (TSS)
+	cs2Bz []byte
 	ssBz  []byte // a marshalled consensus state
 	cs    exported.ClientState
 	ss    exported.ConsensusState
@@ -99,6 +103,8 @@ func newC19World(t *testing.T) *c19World {
 	w.cs = &tmtypes.ClientState{ChainId: "c19", TrustLevel: tmtypes.Fraction{Numerator: 1, Denominator: 3}, TrustingPeriod: time.Hour, UnbondingPeriod: 2 * time.Hour,
 		MaxClockDrift: time.Second, LatestHeight: clienttypes.NewHeight(0, 5)}
 	w.csBz = a.XIBCKeeper.ClientKeeper.MustMarshalClientState(w.cs)
+	w.cs2 = &tsstypes.ClientState{TssAddress: "0xeE3C65B5c7F4DD0ebeD8bF046725e273e3eeeD3c", Pubkey: bytes.Repeat([]byte{4}, 65), Threshold: 1}
+	w.cs2Bz = a.XIBCKeeper.ClientKeeper.MustMarshalClientState(w.cs2)
 	w.ssBz = a.XIBCKeeper.ClientKeeper.MustMarshalConsensusState(w.ss)
 	w.reset()
 	return w
@@ -261,6 +267,8 @@ func (w *c19World) kindOf(val []byte) string {
 		return "c"
 	case bytes.Equal(val, w.ssBz):
 		return "s"
+	case bytes.Equal(val, w.cs2Bz):
+		return "t"
 	}
 	return hx(val)
 }
@@ -355,6 +363,62 @@ func (w *c19World) e2eVerify(fam, pre, src, dst string, seq uint64, val []byte) 
 		return cs.VerifyPacketAcknowledgement(cctx, cst, cdc, height, proofBz, src, dst, seq, val)
 	}
 	return cs.VerifyPacketCommitment(cctx, cst, cdc, height, proofBz, src, dst, seq, val)
+}
+
+// foreignEntries: every raw store entry that does NOT belong to client `name` (key does not start with clients/<name>/),
+// as one comparable text
+func (w *c19World) foreignEntries(name string) string {
+	own := []byte(string(host.KeyClientStorePrefix) + "/" + name + "/")
+	var sb strings.Builder
+	it := w.store().Iterator(nil, nil)
+	defer it.Close()
+	for ; it.Valid(); it.Next() {
+		if bytes.HasPrefix(it.Key(), own) {
+			continue
+		}
+		sb.WriteString(hx(it.Key()))
+		sb.WriteByte('=')
+		sb.WriteString(hx(it.Value()))
+		sb.WriteByte(';')
+	}
+	return sb.String()
+}
+
+// another client whose name is in (proper) prefix relation with `name` has entries in the store
+func (w *c19World) hasPrefixRelatedClient(name string) bool {
+	pre := string(host.KeyClientStorePrefix) + "/"
+	it := w.store().Iterator([]byte(pre), nil)
+	defer it.Close()
+	for ; it.Valid(); it.Next() {
+		k := string(it.Key())
+		if !strings.HasPrefix(k, pre) {
+			break
+		}
+		rest := k[len(pre):]
+		i := strings.IndexByte(rest, '/')
+		if i < 0 {
+			continue
+		}
+		other := rest[:i]
+		if other != name && (strings.HasPrefix(other, name) || strings.HasPrefix(name, other)) {
+			return true
+		}
+	}
+	return false
+}
+
+func c19FirstDiff(a, b string) string {
+	as, bs := strings.Split(a, ";"), strings.Split(b, ";")
+	in := map[string]bool{}
+	for _, x := range bs {
+		in[x] = true
+	}
+	for _, x := range as {
+		if !in[x] {
+			return "entry gone or changed: " + x
+		}
+	}
+	return fmt.Sprintf("%d entries before, %d after", len(as), len(bs))
 }
 
 func (w *c19World) storeDigest() string {
@@ -1219,7 +1283,15 @@ func (w *c19World) apply(r *Rec, op string) string {
 	case "bscdelsigners":
 		cst := w.app.XIBCKeeper.ClientKeeper.ClientStore(w.ctx, string(unhx(f[1])))
 		var err error
+		foreignBefore := w.foreignEntries(string(unhx(f[1])))
 		pan, msg := safely(func() { err = bsctypes.DeleteAllSigner(cst) })
+		r.Count("frame.bscdelsigners")
+		if w.hasPrefixRelatedClient(string(unhx(f[1]))) {
+			r.Count("frame.prefix-related.bscdelsigners")
+		}
+		if after := w.foreignEntries(string(unhx(f[1]))); after != foreignBefore {
+			w.find(r, "C19:foreign-client-keys-changed:bscdelsigners", "an operation on one client changed store entries that do not belong to it", c19FirstDiff(foreignBefore, after), "unchanged")
+		}
 		if !w.dirty {
 			left := 0
 			it := sdk.KVStorePrefixIterator(cst, []byte(bsctypes.PrefixKeyRecentSingers))
@@ -1384,6 +1456,52 @@ func (w *c19World) apply(r *Rec, op string) string {
 		if pan || verr != nil {
 			return "err"
 		}
+		return "ok"
+
+	case "ctoggle", "cupgrade":
+		name := string(unhx(f[1]))
+		ck := w.app.XIBCKeeper.ClientKeeper
+		before := w.foreignEntries(name)
+		var err error
+		pan, _ := safely(func() {
+			cur, found := ck.GetClientState(w.ctx, name)
+			if !found {
+				err = fmt.Errorf("not found")
+				return
+			}
+			// toggle: to the other type; upgrade: to the same type
+			toTm := cur.ClientType() != w.cs.ClientType()
+			if f[0] == "cupgrade" {
+				toTm = !toTm
+			}
+			var ncs exported.ClientState = w.cs2
+			var ncons exported.ConsensusState = &tsstypes.ConsensusState{}
+			if toTm {
+				ncs, ncons = w.cs, w.ss
+			}
+			if f[0] == "ctoggle" {
+				err = ck.ToggleClient(w.ctx, name, ncs, ncons)
+			} else {
+				err = ck.UpgradeClient(w.ctx, name, ncs, ncons)
+			}
+		})
+		// ---- frame oracle on the raw store: a range-style operation on one client leaves every other key byte-identical ----
+		r.Count("frame." + f[0])
+		if w.hasPrefixRelatedClient(name) {
+			r.Count("frame.prefix-related." + f[0])
+		}
+		if after := w.foreignEntries(name); after != before {
+			w.find(r, "C19:foreign-client-keys-changed:"+f[0], "an operation on one client changed store entries that do not belong to it", c19FirstDiff(before, after), "unchanged")
+		}
+		if pan {
+			r.Count("iter.panic")
+			return "panic"
+		}
+		if err != nil {
+			return "err"
+		}
+		// bookkeeping for the standing oracles: the client's own entries changed
+		w.dirty = true
 		return "ok"
 
 	case "iseq":
@@ -2265,6 +2383,64 @@ func (g c19Gen) merkleOps() []string {
 	return append(out, "mcodec "+hxs(sv))
 }
 
+// client names in prefix relation (valid identifiers need 3 characters)
+var c19PrefixClients = [][]string{
+	{"rin", "rin-2", "rin2", "riny", "rin-", "rin.x"},
+	{"rinkeby", "rinkeby-2", "rinkeby2", "rinkeby-testnet"},
+	{"abc", "abc-2", "abc2", "abcd", "abc+", "abc#1"},
+	{"eth", "eth2", "eth-2", "ethx", "eth[1]"},
+}
+
+// several clients whose names extend one another, each with client state, consensus states, metadata and signers; then
+// range-style operations on ONE of them (toggle / upgrade / delete-all-signers) — the others must stay byte-identical
+func (g c19Gen) prefixClientHistory() []string {
+	h := []string{"reset"}
+	fam := c19PrefixClients[g.n(len(c19PrefixClients))]
+	k := 2 + g.n(len(fam)-1)
+	names := append([]string{fam[0]}, fam[1:k]...)
+	const tmTime = "1700000000000000000"
+	for _, n := range names {
+		x := hxs(n)
+		h = append(h, "clset "+x)
+		for i, m := 0, 1+g.n(4); i < m; i++ {
+			rv, hv := g.u64(), g.u64()
+			switch g.n(5) {
+			case 0:
+				h = append(h, fmt.Sprintf("cset %s %d %d", x, rv, hv))
+			case 1:
+				h = append(h, fmt.Sprintf("tmset %s %d %d %d", x, rv, hv, g.u64()))
+			case 2:
+				h = append(h, fmt.Sprintf("evmset %s %d %d", x, rv, hv))
+			case 3:
+				h = append(h, fmt.Sprintf("bscsigner %s %d %d %s", x, rv, hv, hx(g.randBytes(20))))
+			default:
+				h = append(h, fmt.Sprintf("ethsetroot %s %d %s %s", x, hv, hx(g.randBytes(32)), hx(g.randBytes(32))))
+			}
+		}
+	}
+	for i, m := 0, 2+g.n(5); i < m; i++ {
+		x := hxs(names[g.n(len(names))])
+		if g.n(3) == 0 {
+			x = hxs(names[0]) // the shortest name: every other one extends it
+		}
+		switch g.n(4) {
+		case 0, 1:
+			h = append(h, "ctoggle "+x+" 0 5 "+tmTime)
+		case 2:
+			h = append(h, "cupgrade "+x+" 0 5 "+tmTime)
+		default:
+			h = append(h, "bscdelsigners "+x)
+		}
+		if g.n(3) == 0 {
+			h = append(h, "dump")
+		}
+	}
+	if g.n(6) == 0 { // a client that does not exist / a foreign value under the client-state key
+		h = append(h, "ctoggle "+hxs("nope")+" 0 5 "+tmTime, "raw "+hxs("clients/"+names[0]+"/clientState")+" ff", "cupgrade "+hxs(names[0])+" 0 5 "+tmTime)
+	}
+	return append(h, "dump", "iclients", "icons")
+}
+
 func TestC19(t *testing.T) {
 	r := NewRec(t, "C19")
 	defer r.Close()
@@ -2444,6 +2620,10 @@ func TestC19(t *testing.T) {
 		}
 		run([]string{fmt.Sprintf("e2e %s %s %s %s %d %s", []string{"commit", "ack"}[g.n(2)], hxs("xibc"), hxs(src), hxs(dst), g.u64(), hx(append([]byte{5}, g.randBytes(g.n(32))...)))})
 		w.hist = nil
+	}
+	// 11. range-style client operations over clients whose names are in prefix relation (frame oracle on the raw store)
+	for i := 0; i < 60*scale; i++ {
+		run(g.prefixClientHistory())
 	}
 	// 6. point read-back (Get* / Has* after Set*) over names that differ only in case
 	for i := 0; i < 60*scale; i++ {
